@@ -12,7 +12,7 @@ from . import c01, c02
 from .toposort_rules import check_toposort
 
 PROP = "C20"
-FLOORS = {"C20.R1": 25, "C20.R2": 25, "C20.R3": 30, "C20.R4": 4, "C20.R5": 6}
+FLOORS = {"C20.R1": 25, "C20.R2": 25, "C20.R3": 30, "C20.R4": 4, "C20.R5": 6, "C20.R6": 3}
 META = {
     "explanation": "Build independence: Cython runs __cinit__ base-first, the pure-Python simulation in BaseRef.__init__ runs them "
                    "derived-first, so along every MRO each field is assigned by exactly one __cinit__, no __cinit__ reads a field "
@@ -189,6 +189,93 @@ def _compiled_branches(col, rule="C20.R4"):
             "" if na == nb else f"only in MutableRef: {[x for x in na if x not in nb][:3]}; only in ObjectAttrRef: {[x for x in nb if x not in na][:3]}")
 
 
+def _path_signatures(sx, targets, limit=4000):
+    """decision signatures of the acyclic normal paths ENTRY -> one of `targets`: frozenset of (test term, outcome)"""
+    cfg = sx.cfg
+    targets = set(targets)
+    out = set()
+    n_paths = 0
+    stack = [(cfg.ENTRY, frozenset(), frozenset([cfg.ENTRY]))]
+    while stack:
+        x, sig, seen = stack.pop()
+        if x in targets:
+            out.add(sig)
+            continue
+        for y in cfg.g.successors(x):
+            if y in seen or cfg.g[x][y].get("kind") == "x":
+                continue
+            n_paths += 1
+            if n_paths > limit:
+                raise AnalysisError(f"{sx.cx.qual}: too many paths for a path-sensitive comparison")
+            nd = cfg.nodes[y]
+            sg = sig
+            if nd.kind in ("T", "F") and nd.of is not None and cfg.nodes[nd.of].kind == "test":
+                ct = S.norm_cond(True, sx.sym.of(cfg.nodes[nd.of].ast, nd.of))
+                kind = nd.kind
+                if ct[:1] == ("uop",) and ct[1] == "not":     # `if not X` on its T branch is X on its F branch
+                    ct, kind = ct[2], ("F" if kind == "T" else "T")
+                sg = sig | {(S.show(ct, False), kind)}
+            stack.append((y, sg, seen | {y}))
+    return out
+
+
+def _is_build_test(txt: str) -> bool:
+    return "cython.compiled" in txt or "is_cythonized" in txt
+
+
+def _build_independent_routing(col, rule="C20.R4"):
+    """apart from what happens to built-in attribute names (documented: read-only when compiled, stored when pure), the
+    decision which names are handed to the manager is taken by build-independent tests"""
+    for cname in ("MutableRef", "ObjectAttrRef"):
+        sx = sctx(col.repo, cname, "__setattr__")
+        sv = [ev.nid for ev in sx.events if ev.kind == "call" and ev.term[1][:1] == ("attr",) and ev.term[1][2] == "set_value"]
+        if not sv:
+            raise AnalysisError(f"{cname}.__setattr__: no manager.set_value -- cannot decide")
+        sigs = _path_signatures(sx, sv)
+        per = {}
+        for build in ("T", "F"):
+            mine = set()
+            for sg in sigs:
+                flags = {o for t, o in sg if _is_build_test(t)}
+                # a test `not cython.compiled` normalises to the positive test with swapped outcome (norm_cond), so outcome = build value
+                if flags and flags != {build}:
+                    continue
+                mine.add(frozenset((t, o) for t, o in sg if not _is_build_test(t)))
+            per[build] = mine
+        col.add(rule, f"{cname}.__setattr__#manager-path-build-independent", per["T"] == per["F"], sx.loc(sx.fn),
+                "which attribute names are assigned through the manager is decided by the same tests in the compiled and in the "
+                "pure-Python build (only the treatment of built-in attribute names differs, as documented)",
+                "" if per["T"] == per["F"] else
+                f"compiled: {sorted(sorted(x) for x in per['T'])}; pure: {sorted(sorted(x) for x in per['F'])}")
+
+
+C_NUMERIC = ("int", "long", "cython.int", "cython.long", "cython.longlong", "cython.Py_hash_t", "cython.double", "float", "cython.float")
+
+
+def _c_typed_fields(col, rule="C20.R3"):
+    """a field declared with a C numeric type holds the C-level truncation of what is stored; the direct result of hash() is
+    converted silently in both builds' favour, Python-level arithmetic on it is checked for overflow when compiled only"""
+    rm = model(col)
+    for c in rm.classes:
+        ctyped = set()
+        for k in col.repo.mro(c):
+            for nm, v in k.consts.items():
+                if isinstance(v, ast.Call) and A.call_name(v) == "cython.declare" and v.args and (A.dotted(v.args[0]) or "") in C_NUMERIC:
+                    ctyped.add(nm)
+        if not ctyped or "__cinit__" not in c.methods:
+            continue
+        for f, lst in rm.field_stores(c.name).items():
+            if f not in ctyped:
+                continue
+            for k, v, cd, sx, ev in lst:
+                if k is not c:
+                    continue
+                bad = [a for a in S.instances(v) if not (S.is_call_of(a, ("glob", "hash")) or a[:1] == ("const",))]
+                col.add(rule, f"{c.name}#c-typed-field:{f}", not bad, sx.loc(ev),
+                        f"the C-typed field {f} is assigned the direct result of hash(...) (no Python-level arithmetic, whose result "
+                        "the compiled build range-checks and the pure build does not)", "; ".join(S.show(a)[:80] for a in bad))
+
+
 def _task_like(t) -> bool:
     """term denoting a task: a parameter, an entry / element of self.tasks, an element of find_tasks(...)"""
     if t[:1] == ("param",):
@@ -280,6 +367,8 @@ def _unordered(col, rule="C20.R5"):
 def check(col: Collector):
     _cinit_rules(col)
     _compiled_branches(col)
+    _build_independent_routing(col)
+    _c_typed_fields(col)
     _unordered(col)
     # one visited set shared across start vertices => any start order yields a valid order (acyclic case)
     check_toposort(col, "C20.R5")
@@ -288,3 +377,5 @@ def check(col: Collector):
     sub = Collector(col.repo, "C20", col.tier)
     c02._edges(sub, "C20.R5")
     col.obs.extend(sub.obs)
+    # a lost ordering / producer entry leaves the relative order of two tasks to set iteration (hash seed, 32/64-bit hashes)
+    c02.inverse_effects(col, "C20.R6", only_indices=("rtasks", "tartasks", "deptasks"))
